@@ -850,6 +850,21 @@ func truncSig(sig hotstuff.QuorumSignature, drop int) hotstuff.QuorumSignature {
 	return nil
 }
 
+// padBLS returns the same BLS signature with k zero bytes appended to its signer bit field: the same signers, the same
+// point, a longer encoding (what a peer may put on the wire).
+func padBLS(sig hotstuff.QuorumSignature, k int) hotstuff.QuorumSignature {
+	s, ok := sig.(*crypto.BLS12AggregateSignature)
+	if !ok {
+		return nil
+	}
+	b := append(append([]byte{}, s.Bitfield().Bytes()...), make([]byte, k)...)
+	r, err := crypto.RestoreBLS12AggregateSignature(s.ToBytes(), crypto.BitfieldFromBytes(b))
+	if err != nil {
+		return nil
+	}
+	return r
+}
+
 // oneValidSig: own's signature bytes under every name in others, plus the genuine entry at the end (where 0), the
 // beginning (1) or in the middle (2).
 func oneValidSig(scheme string, own hotstuff.QuorumSignature, self hotstuff.ID, others []hotstuff.ID, where int) hotstuff.QuorumSignature {
@@ -1072,6 +1087,10 @@ func (a *adversary) craftBlock(nd *Node, view hotstuff.View) *hotstuff.Block {
 	batch := &clientpb.Batch{Commands: []*clientpb.Command{{ClientID: 7000 + uint32(nd.id), SequenceNumber: a.ctr, Data: []byte(fmt.Sprintf("adv%d", a.ctr))}}}
 	if a.noBatch() {
 		batch = nil
+	} else if w.plan.knob("nobatch", 0) == 1 && mix(w.plan.Inner, 0x756e6b6e, a.ctr)%3 == 0 {
+		// a batch from "a newer build": it carries a field this version does not know (field 15, a byte string)
+		batch.ProtoReflect().SetUnknown([]byte{0x7a, 0x03, 'n', 'e', 'w'})
+		a.fired("batch-with-unknown-field")
 	}
 	b := hotstuff.NewBlock(parent.Hash(), parent.QuorumCert(), batch, view, nd.id)
 	w.reg.add(b, nd)
@@ -1105,6 +1124,15 @@ func (a *adversary) forgeTC(nd *Node) hotstuff.TimeoutCert {
 			a.fired("forgetc-view-zero-signed")
 			return hotstuff.NewTimeoutCert(junk, 0)
 		}
+	}
+	if cur := nd.states.View(); cur > 2 && mix(a.w.plan.Inner, 0x6f6c6474, a.ctr)%5 == 0 {
+		// a view long left (at or below what has been committed): its own signature alone, or no signature
+		old := hotstuff.View(1 + mix(a.w.plan.Inner, 0x6f6c6475, a.ctr)%uint64(cur-1))
+		a.fired("forgetc-old-view")
+		if mix(a.w.plan.Inner, 0x6f6c6476, a.ctr)%2 == 0 {
+			return hotstuff.NewTimeoutCert(nil, old)
+		}
+		return hotstuff.NewTimeoutCert(a.ownSig(nd, old.ToBytes()), old)
 	}
 	switch a.intn(4) {
 	case 0: // its own signature alone, for some later view
@@ -1289,6 +1317,9 @@ func (a *adversary) onPropose(nd *Node, p *hotstuff.ProposeMsg) bool {
 		batch := &clientpb.Batch{Commands: []*clientpb.Command{{ClientID: 7000 + uint32(nd.id), SequenceNumber: a.ctr, Data: []byte("eq")}}}
 		if a.noBatch() {
 			batch = nil
+		} else if w.plan.knob("nobatch", 0) == 1 && mix(w.plan.Inner, 0x756e6b6f, a.ctr)%2 == 0 {
+			batch.ProtoReflect().SetUnknown([]byte{0x7a, 0x03, 'n', 'e', 'w'}) // a field this version does not know
+			a.fired("batch-with-unknown-field")
 		}
 		b2 := hotstuff.NewBlock(b.Parent(), b.QuorumCert(), batch, b.View(), nd.id)
 		if len(a.qcs) > 1 && a.chance(0.5) {
@@ -1690,6 +1721,49 @@ func (a *adversary) onTimeout(nd *Node, m *hotstuff.TimeoutMsg) bool {
 		a.fired("noqctimeout")
 		return true
 	}
+	if has(acts, "padbits") && a.chance(0.8) {
+		if ps := padBLS(m.ViewSignature, 1+a.intn(3)); ps != nil {
+			fm := *m
+			fm.ViewSignature = ps
+			if m.MsgSignature != nil {
+				if pm := padBLS(m.MsgSignature, 1+a.intn(3)); pm != nil {
+					fm.MsgSignature = pm
+				}
+			}
+			for _, id := range a.others(nd) {
+				a.sendTo(nd, id, "timeout", fm)
+			}
+			a.fired("padbits-timeout")
+			return true
+		}
+	}
+	if has(acts, "timeoutqc") && m.MsgSignature == nil && len(a.qcs) > 0 && a.chance(0.7) {
+		// simple timeout rule: its own, correctly signed timeout carries the newest genuine QC it holds - possibly one
+		// for the very view that is timing out, which the honest replicas have not seen
+		qc := a.qcs[0]
+		for _, c := range a.qcs {
+			if c.View() > qc.View() {
+				qc = c
+			}
+		}
+		fm := *m
+		si := fm.SyncInfo
+		si.SetQC(qc)
+		fm.SyncInfo = si
+		if qc.View() < fm.View && qc.View() > 0 {
+			// ... as a timeout for the view that QC certifies (the view the others are about to time out of, if this
+			// replica collected the votes and kept the certificate to itself), signed accordingly
+			if vs := a.ownSig(nd, qc.View().ToBytes()); vs != nil {
+				fm.View, fm.ViewSignature = qc.View(), vs
+				a.fired("timeoutqc-for-the-certified-view")
+			}
+		}
+		for _, id := range a.others(nd) {
+			a.sendTo(nd, id, "timeout", fm)
+		}
+		a.fired("timeoutqc")
+		return true
+	}
 	if has(acts, "aggattest") && m.MsgSignature != nil && len(a.qcs) > 0 && a.chance(0.5) {
 		// every second timeout of the Byzantine replica attests the newest genuine QC it has seen (the others attest
 		// whatever its stack holds): aggregates with and without that QC alternate at the honest replicas
@@ -1849,6 +1923,14 @@ func (a *adversary) onVote(nd *Node, to hotstuff.ID, c *hotstuff.PartialCert) bo
 	}
 	if has(acts, "stalechain") && a.chance(0.35) {
 		a.staleChain(nd)
+	}
+	if has(acts, "padbits") && a.chance(0.8) {
+		// its genuine vote, the signer bit field padded with zero bytes (BLS)
+		if ps := padBLS(c.Signature(), 1+a.intn(3)); ps != nil {
+			a.sendTo(nd, to, "vote", hotstuff.VoteMsg{ID: nd.id, PartialCert: hotstuff.NewPartialCert(ps, c.BlockHash())})
+			a.fired("padbits-vote")
+			return true
+		}
 	}
 	switch {
 	case has(acts, "dupvote") && a.chance(0.5):
